@@ -21,7 +21,7 @@
         ts_increasing None s = true ->
         prefix_free_from [] s = true ->        (* no stored path is a proper prefix of another AT ANY TIME *)
         decodable s = true -> ... (no `*`/meta, query glob-free and above the leaves,
-                                   no origin in a path, no -0, one path encoding) ->
+                                   no origin in a path, no -0) ->
         exists l, pipeline cfg ss q sched = VLeaves l /\
                   Permutation l (selects (sub_query q) (stamp_paths name (replay s))).
 
@@ -132,9 +132,3 @@ Theorem C01_relay_negative_zero_refuted :
             ~ Permutation l (selects ["dev1"] (stamp_paths "dev1" (replay Refuted.s_zero))).
 Proof. exact Refuted.negative_zero_refuted. Qed.
 Print Assumptions C01_relay_negative_zero_refuted.
-
-Theorem C01_relay_mixed_encoding_refuted :
-  exists l, pipeline Refuted.cfg1 [("dev1", Refuted.s_mixed)] RelayExample.q [ASubscribe] = VLeaves l /\
-            ~ Permutation l (selects ["dev1"] (stamp_paths "dev1" (replay Refuted.s_mixed))).
-Proof. exact Refuted.mixed_encoding_refuted. Qed.
-Print Assumptions C01_relay_mixed_encoding_refuted.
